@@ -423,7 +423,9 @@ def check_C32(ctx):
     for e in events:
         if e["out"] == "ok":
             okc += 1
-        classes.add((e["t"], e["op"], e["wa"], e["a"]["kind"], e["a"]["neg"], e["wb"], e["b"].get("kind"), e["b"].get("neg"), e["n"]))
+        if e["out"] == "ok" and e["wa"] > 0:
+            # size class: the boundary kinds (max / min / random) of one size class are not counted separately
+            classes.add((e["t"], e["op"], e["wa"], e["a"]["neg"], e["wb"], e["b"].get("neg"), e["n"]))
     for e in (events[len(events) // 5], events[len(events) // 2], events[-5]):
         ctx.add_sample({"kind": "metering event judged by TLC", "event": desc(e)})
     per = {}
@@ -432,9 +434,10 @@ def check_C32(ctx):
     return ctx.finish({
         "evaluations": len(events),
         "distinct_nontrivial": len(classes),
-        "rule": "distinct (type, operation, operand descriptors [word length, boundary kind, sign], shift amount) combinations, "
-                "enumerated exhaustively by TLC from spec/num/MC_BigMeterEnum.tla; each materialised and executed once on the real value "
-                "method with a recording memory gauge; TLC judges metered >= 8*words(result)",
+        "rule": "evaluations: every (type, operation, operand descriptors [word length, boundary kind, sign], shift amount) combination "
+                "enumerated by TLC from spec/num/MC_BigMeterEnum.tla, each materialised and executed once on the real value method with a "
+                "recording memory gauge and judged by TLC (metered >= 8*words(result)); distinct_nontrivial: distinct size classes (type, operation, "
+                "word lengths, signs, shift amount) with a non-zero left operand that produced a result (the three boundary kinds of a class count once)",
         "exhaustive": True,
         "descriptor_rows_enumerated_by_tlc": len(rows), "events_judged_by_tlc": judged, "results_produced": okc,
         "tlc_judge_chunks": nchunks, "events_per_type_op": per,
